@@ -55,6 +55,18 @@ def cases(rng, tier):
         decl, truth = SAME_PATH[k % len(SAME_PATH)]
         out.append({"wgsl": _variant(decl), "family": "same_path_same_length", "opts": {}, "include": "gen/overrides.wgsl",
                     "truth": truth, "assignments": sink.override_assignments(rng, truth)})
+    # overrides that size things (a workgroup dimension, the length of a workgroup array): fields, optionality and types are
+    # those of the declarations, whatever the override is used for
+    for k, (d1, d2) in enumerate((("override block_size = 64;", ("block_size", "i32", 64)), ("override block_size: i32 = 32;", ("block_size", "i32", 32)),
+                                  ("override block_size: u32 = 48u;", ("block_size", "u32", 48)))):
+        truth_ = [{"name": d2[0], "ty": d2[1], "id": None, "default": True, "dflt": {"lit": d2[2]}},
+                  {"name": "tile", "ty": "u32", "id": None, "default": True, "dflt": {"lit": 16}},
+                  {"name": "rows", "ty": "i32", "id": 5, "default": False, "dflt": None}]
+        w = ("%s\noverride tile: u32 = 16u;\n@id(5) override rows: i32;\nvar<workgroup> scratch: array<f32, block_size>;\n"
+             "@compute @workgroup_size(tile) fn main() { scratch[0] = f32(rows); }\n" % d1)
+        out.append({"wgsl": w, "family": "overrides_that_size_things", "opts": {}, "truth": truth_,
+                    "assignments": [{"block_size": 32, "tile": 8, "rows": 3}, {"block_size": None, "tile": None, "rows": 1},
+                                    {"block_size": 128, "tile": None, "rows": -2}]})
     for i in range(n):
         s = sink.sink(rng, n_consts=0, n_overrides=rng.choice([0, 1, 2, 3, 4, 6]))
         out.append({"wgsl": s["wgsl"], "family": "overrides", "opts": {"rustfmt": i % 10 == 0}, "truth": s["overrides"],
